@@ -407,8 +407,106 @@ impl Check for C07SortFn {
     }
 }
 
+// ------------------------------------------------------------------ (d) the number-as-string sort
+// (run under C04: the function is documented with an example - elements without a key first,
+// exact decimal order, ties in arrival order - but is not one of the sorts C07 lists)
+
+/// value classes in increasing order, each with numerically equal spellings
+pub const NAS_CLASSES: &[&[&str]] = &[
+    &["-123456789012345678901234567891"],
+    &["-123456789012345678901234567890", "-1.2345678901234567890123456789e29"],
+    &["-1", "-1.0", "-10e-1", "-01"],
+    &["-1e-100", "-0.1E-99"],
+    &["0", "0.0", "0e5", "-0", "00"],
+    &["1e-100", "1E-100"],
+    &["0.5", "5e-1", "0.50", "00.5"],
+    &["1", "1.0", "1.00", "1e0", "10e-1", "01", "1E+0"],
+    &["1.0000000000000000000000000000001"],
+    &["2", "2.0", "0.2e1"],
+    &["100", "1e2", "1E2", "1E+2", "100.0"],
+    &["9007199254740992"],
+    &["9007199254740993", "9007199254740993.0"],
+    &["123456789012345678901234567890", "1.2345678901234567890123456789e29"],
+    &["123456789012345678901234567891"],
+    &["1e100", "1E+100"],
+];
+
+#[derive(Clone, Debug, Serialize, Deserialize)]
+pub struct CaseNasSort {
+    pub func: String,
+    /// (class, spelling) per element; None = the element has no key
+    pub items: Vec<Option<(usize, usize)>>,
+}
+
+pub struct C07NasSort;
+impl Check for C07NasSort {
+    type Case = CaseNasSort;
+    fn name(&self) -> &'static str {
+        "C04.nas_sort"
+    }
+    fn cases(&self, tier: Tier) -> u64 {
+        tier.pick(12_000, 300_000)
+    }
+    fn strategy(&self, _t: Tier) -> BoxedStrategy<CaseNasSort> {
+        let funcs = vec!["\"sort_by\"", "\"order_by\"", "sort_by_nas", "order_by_nas"];
+        let cells = prop_oneof![3 => vec((0u32..10, any::<u16>(), any::<u16>()), 0..25), 1 => vec((0u32..10, any::<u16>(), any::<u16>()), 25..160)];
+        (prop::sample::select(funcs), vec(0..NAS_CLASSES.len(), 1..5), cells)
+            .prop_map(|(f, pool, cells)| {
+                let items = cells
+                    .iter()
+                    .map(|(a, p, q)| {
+                        if *a < 1 {
+                            None
+                        } else {
+                            let c = pool[pick_idx(*p, pool.len())];
+                            Some((c, pick_idx(*q, NAS_CLASSES[c].len())))
+                        }
+                    })
+                    .collect();
+                CaseNasSort { func: f.to_string(), items }
+            })
+            .boxed()
+    }
+    fn check(&self, case: &CaseNasSort) -> CaseResult {
+        let n = case.items.len();
+        let input = format!(
+            "[{}]",
+            case.items.iter().enumerate().map(|(id, k)| match k { Some((c, s)) => format!("{{\"i\":{},\"k\":\"{}\"}}", id, NAS_CLASSES[*c][*s]), None => format!("{{\"i\":{}}}", id) }).collect::<Vec<_>>().join(",")
+        );
+        let expr = format!("({} . .k)", case.func);
+        let out = run(&[format!("--select={}=x", expr)], input.as_bytes());
+        if !out.res.is_ok() {
+            return CaseResult::Fail(format!("jawk failed: {}", out.res.short()));
+        }
+        let rows = match split_rows(&out.stdout, b"\n") {
+            Ok(r) => r,
+            Err(e) => return CaseResult::Fail(e),
+        };
+        let Some(RVal::Arr(got)) = rows.first().and_then(|r| r.0.get("x").cloned()) else { return CaseResult::Fail(format!("{} did not return a list for {}", expr, trunc(&input, 300))) };
+        let key = |i: usize| case.items[i].map(|(c, _)| c as i64).unwrap_or(-1);
+        let mut pos: Vec<usize> = (0..n).collect();
+        pos.sort_by_key(|p| key(*p));
+        let ids: Vec<i128> = got.iter().map(|g| match g.get("i") { Some(RVal::Int(i)) => *i, _ => -1 }).collect();
+        let exp: Vec<i128> = pos.iter().map(|p| *p as i128).collect();
+        let has_tie = (0..n).any(|i| (i + 1..n).any(|j| key(i) == key(j)));
+        let spelled_tie = (0..n).any(|i| (i + 1..n).any(|j| key(i) == key(j) && case.items[i] != case.items[j]));
+        let has_distinct = (0..n).any(|i| (i + 1..n).any(|j| key(i) != key(j)));
+        if ids != exp {
+            return CaseResult::Fail(format!("{} on {}: expected element ids {:?} (elements without a key first, exact decimal order, ties in arrival order), got {:?}", expr, trunc(&input, 400), exp, ids));
+        }
+        CaseResult::Pass(
+            Info::new(n >= 3 && has_tie && has_distinct)
+                .class_if(spelled_tie, "tie_between_different_spellings")
+                .class_if(case.items.iter().any(|i| i.is_none()), "absent_keys")
+                .class_if(n > 32, "long_list")
+                .class_if(n > 20, "more_than_20")
+                .obs(json!({"ids": trunc(&format!("{:?}", ids), 200)})),
+        )
+    }
+}
+
 pub fn run_all(ctx: &mut Ctx) {
-    ctx.rule = "C07.axioms: the six comparison matrices over the whole universe are obtained from jawk and all pairs/triples are checked (exhaustive). C07.sortby: 0..40 records with 3 key fields from per-case pools of 1..5 universe values (or absent) x 1..3 --sort-by keys x ASC/DESC/omitted in random letter case and both syntaxes; non-trivial = at least two rows tie on the full key, two differ, and for multi-key sorts a tie on key 1 is broken by key 2. C07.functions: the six sort functions and their aliases on up to 24 elements/members; non-trivial = >= 3 elements with a tie and a difference. distinct = distinct cases by hash".into();
+    ctx.rule = "C07.axioms: the six comparison matrices over the whole universe are obtained from jawk and all pairs/triples are checked (exhaustive). C07.sortby: 0..40 records with 3 key fields from per-case pools of 1..5 universe values (or absent) x 1..3 --sort-by keys x ASC/DESC/omitted in random letter case and both syntaxes; non-trivial = at least two rows tie on the full key, two differ, and for multi-key sorts a tie on key 1 is broken by key 2. C07.functions: the six sort functions and their aliases on up to 160 elements/members; non-trivial = >= 3 elements with a tie and a difference. distinct = distinct cases by hash".into();
     ctx.assumptions = vec![
         "the order between two different objects is unspecified: jawk's own < matrix is used for it after it passed totality/antisymmetry/transitivity over the whole universe".into(),
         "universe numbers are < 2^53 in magnitude or non-integral, no -0, no member-order permutations (the property's quantifier)".into(),
